@@ -72,7 +72,7 @@ func runFixed(c *core.Ctx, accuracy bool) {
 		if !c.Want(caseID) {
 			continue
 		}
-		sc := newScannerCh(cv, 1+ti%3)
+		sc := newScannerHow(cv, 1+ti%3, ti/3)
 		var back *scanner
 		st, dt := cv.S.TypeInfo, cv.D.TypeInfo
 		preludeCheck(c, sc, name, caseID, rawOfAmp(st, 0), rawOfAmp(st, minAmp(st.Bits)), rawOfAmp(st, maxAmp(st.Bits)),
@@ -97,6 +97,13 @@ func runFixed(c *core.Ctx, accuracy bool) {
 				return
 			}
 			out := sc.conv(in)
+			if sc.panicked != "" {
+				if viol < 1000 {
+					c.Violate(name+"|panic", caseID, "the conversion panicked: "+sc.panicked, map[string]any{"fn": name, "buffer_len": len(in), "channels": sc.ch})
+				}
+				viol = 1000
+				return
+			}
 			if chunkNo++; t.list || chunkNo%8 == 1 {
 				if idx, got := sc.orderCheck(in, out); idx >= 0 {
 					viol++
